@@ -23,7 +23,7 @@ ASSUMPTIONS = ["default contour parameters M=16, r=1 unless stated in the case",
                "observed order is a bounded restatement of 'decays like dt^p'"]
 AMBIENT = True            # thorough tier: the repository's own test-suite runs under this property's general monitor (rv/ambient.py)
 REQUIRED_AMBIENT = {'ambient_coef_exact': 200}
-TIMEOUT = {"quick": 900, "thorough": 3000}
+TIMEOUT = {"quick": 2400, "thorough": 7200}
 C_TOL = 256.0
 
 SEMILINEAR = [n for n, s in zoo.SPECS.items() if not s["linear"]]
